@@ -7,6 +7,7 @@ import (
 	"runtime"
 	"slices"
 	"sync"
+	"time"
 )
 
 type box struct {
@@ -65,9 +66,77 @@ L:
 	mu.RUnlock()
 	f, err := os.Open("/sim/nothing")
 	fmt.Println(f == nil, err != nil)
+	timers()
 	if len(os.Args) > 1 {
 		os.Exit(3)
 	}
+}
+
+type hb struct {
+	t    *time.Ticker
+	stop chan struct{}
+}
+
+// simulated time: nothing here may take real time, and the order of events
+// must follow the simulated clock.
+func timers() {
+	start := time.Now()
+	// a timeout that loses against a fast worker and wins against a slow one
+	for _, work := range []time.Duration{time.Second, 5 * time.Second} {
+		ready := make(chan string)
+		go func() {
+			time.Sleep(work)
+			ready <- "ready"
+		}()
+		select {
+		case v := <-ready:
+			fmt.Println("timeout-race", work, v)
+		case <-time.After(3 * time.Second):
+			fmt.Println("timeout-race", work, "timeout")
+		}
+	}
+	// timer stop / reset
+	tm := time.NewTimer(10 * time.Second)
+	fmt.Println("stop", tm.Stop(), tm.Stop())
+	tm.Reset(2 * time.Second)
+	t0 := time.Now()
+	<-tm.C
+	fmt.Println("reset-fired-after", time.Since(t0).Round(time.Second))
+	// ticker with a heartbeat goroutine
+	h := &hb{t: time.NewTicker(500 * time.Millisecond), stop: make(chan struct{})}
+	beats := 0
+	fin := make(chan struct{})
+	go func() {
+		defer close(fin)
+		for {
+			select {
+			case <-h.t.C:
+				beats++
+			case <-h.stop:
+				return
+			}
+		}
+	}()
+	time.Sleep(2250 * time.Millisecond)
+	h.t.Stop()
+	close(h.stop)
+	<-fin
+	fmt.Println("beats", beats)
+	// AfterFunc
+	var mu sync.Mutex
+	fired := []string{}
+	time.AfterFunc(2*time.Second, func() { mu.Lock(); fired = append(fired, "two"); mu.Unlock() })
+	time.AfterFunc(1*time.Second, func() { mu.Lock(); fired = append(fired, "one"); mu.Unlock() })
+	cancelled := time.AfterFunc(1500*time.Millisecond, func() { mu.Lock(); fired = append(fired, "never"); mu.Unlock() })
+	cancelled.Stop()
+	time.Sleep(3 * time.Second)
+	mu.Lock()
+	fmt.Println("afterfunc", fired)
+	mu.Unlock()
+	for range 2 {
+		<-time.Tick(time.Second)
+	}
+	fmt.Println("elapsed>=", time.Since(start) >= 13*time.Second, time.Since(start) < 14*time.Second)
 }
 
 func runtimeGosched() { runtime.Gosched() }
